@@ -72,7 +72,11 @@ Outcome(e) ==
                                           [nil |-> FALSE, digits |-> DigitsFromStr(A[4].s), alg |-> AlgFromStr(A[5].s), skew |-> A[6].w, period |-> A[7].w]) IN
               CASE x.class = "accept" -> IF RetBool(ret, TRUE) THEN "ok" ELSE "validateTOTP rejects a code the native library accepts"
                 [] x.class = "refuse" -> IF RetBool(ret, FALSE) \/ IsErr(ret) THEN "ok" ELSE "validateTOTP accepts a code the native library rejects"
-                [] x.class = "miss" -> "inc" [] OTHER -> "ok"
+                [] x.class = "miss" -> "inc"
+                [] OTHER ->          \* where the specification leaves the native verdict open (window below step 0), the binding must
+                                     \* still give the verdict the native library of the same tree gives (recorded in e.nat)
+                     IF e.nat.t = "boolean" /\ ~(RetBool(ret, e.nat.b) \/ (~e.nat.b /\ IsErr(ret)))
+                     THEN "validateTOTP disagrees with the native library's verdict" ELSE "ok"
            [] e.fn = "generateOTPURL" ->
               IF A[1].s \notin {tTotp, tHotp} THEN (IF IsErr(ret) THEN "ok" ELSE "an OTP type other than totp/hotp is not refused")
               ELSE IF 58 \in { A[2].s[i] : i \in 1..Len(A[2].s) } THEN "ok"
